@@ -465,7 +465,7 @@ func planFor(prop string) *PropPlan {
 			quick = 48 // nine conflict families: each should get several samples
 		}
 		if prop == "C13" {
-			quick = 72 // reader samples are cheap; writer kind x layout x reader kind needs more of them
+			quick = 110 // reader samples are cheap; writer kind x layout x reader kind x text class needs more of them
 		}
 		p.Modes = []Mode{{Name: "conc", Quick: quick, Deep: 800,
 			Run:    func(bin string, seed uint64) *RunReport { return runConcSample(bin, prop, seed, thoroughTier) },
@@ -513,7 +513,7 @@ func planFor(prop string) *PropPlan {
 				Replay: ReplayConc})
 		}
 		if prop == "C10" {
-			p.Modes = append(p.Modes, Mode{Name: "conc", Quick: 24, Deep: 400,
+			p.Modes = append(p.Modes, Mode{Name: "conc", Quick: 36, Deep: 500,
 				Run:    func(bin string, seed uint64) *RunReport { return runConcSample(bin, prop, seed, thoroughTier) },
 				Replay: ReplayConc})
 		}
